@@ -74,6 +74,13 @@ func accessSites(rep string) []string {
 				if strings.HasPrefix(fn, "runtime.") || strings.HasPrefix(fn, "internal/") || strings.HasPrefix(fn, "sync.") || strings.HasPrefix(fn, "sync/atomic.") {
 					continue
 				}
+				// the network shim's Read/Write stand for the system call that reads or fills the
+				// CALLER's buffer (announced to the race detector at entry): the access belongs
+				// to whoever passed the buffer - the frame below
+				if strings.Contains(fn, "/verifrt/vsched.RaceReadRange") || strings.Contains(fn, "/verifrt/vsched.RaceWriteRange") ||
+					strings.Contains(fn, "/verifrt/vnet.(*Conn).Write") || strings.Contains(fn, "/verifrt/vnet.(*Conn).Read") {
+					continue
+				}
 				sites = append(sites, fn+" "+loc)
 				break
 			}
@@ -655,7 +662,7 @@ func raceScenarios() []raceScenario {
 	// waits for room (bodies shared with C17): the producer must not write into bytes the
 	// sender is still putting on the wire
 	for _, sc := range smallChunkCases(false) {
-		if sc.small != 700 || sc.fill != (16384-(sc.small+20))/1012 || len(sc.pre) == 1 || len(sc.pre) == 3 {
+		if sc.small != 100 || sc.fill != (16384-(sc.small+20))/1012 || len(sc.pre) == 1 || len(sc.pre) == 3 {
 			continue // two of the ring positions: ring start, second lap
 		}
 		shallowScenarios["outgoing ring: "+sc.name] = true
